@@ -201,7 +201,7 @@ class Result:
 IGNORED_FAIL_FUNCS = ("rust_alloc_error_handler",)
 
 
-def run(scratch, harnesses, jobs=12, logdir=None, mem_gb=14):
+def run(scratch, harnesses, jobs=12, logdir=None, mem_gb=float(os.environ.get("VERIF_MEM_GB", "14"))):
     """Run the given harnesses; returns {pretty: Result}."""
     results = {h.pretty: Result(h) for h in harnesses}
     logdir = logdir or os.path.join(scratch.dir, "logs")
@@ -342,6 +342,13 @@ def playback(scratch, h, logdir):
     blocks = re.findall(r"Concrete playback unit test for `[^`]*`:\s*```\n(.*?)```", txt, re.S)
     # keep the tests that belong to failed checks, not to satisfied cover properties
     blocks = [b for b in blocks if not re.search(r"Check for `cover`", b)]
+    seen, uniq = set(), []
+    for b in blocks:
+        m = re.search(r"fn (kani_concrete_playback_[A-Za-z0-9_]+)", b)
+        if m and m.group(1) not in seen:
+            seen.add(m.group(1))
+            uniq.append(b)
+    blocks = uniq[:4]
     if not blocks:
         return None, "", "", "kani produced no concrete playback test"
     tests_src = "\n".join(blocks)
